@@ -19,7 +19,7 @@ enum OpKind { O_APPEND = 1, O_PREPEND = 2, O_INSERT = 3, O_REMOVE = 4, O_OWNS = 
 // Op fields: d = key index. adds: a = callback id (= slot), b = before slot, c = listener kind. remove/owns: b = slot.
 //            dispatch: a = value seed, c = form (argument value categories / event-included form)
 enum { U_VARIANT = 0 };
-enum { V_COUNT = 11 };
+enum { V_COUNT = 12 };
 
 typedef Tracked<seq::T_PAY, false> Payload;
 typedef std::vector<long> Sig;
@@ -373,6 +373,30 @@ struct Cfg10
 	static int forms() { return 3; }
 };
 
+
+// cfg11: a getEvent policy that RETURNS A REFERENCE (to its second argument: the topic is the event, the sender is noise); the
+// policy must be honoured like one that returns by value
+struct Cfg11
+{
+	typedef std::string Key;
+	typedef void Proto(const std::string &, const std::string &);
+	struct Pol { static const std::string & getEvent(const std::string &, const std::string & topic) { faultPoint(F_CALL); return topic; } };
+	typedef eventpp::EventDispatcher<Key, Proto, Pol> D;
+	static Key key(int i) { return "topic-" + std::to_string(i) + std::string((size_t)i * 7, 't'); }
+	struct K0 : LBase { explicit K0(int id) : LBase(id) {} void operator() (const std::string & s, const std::string & t) const { Sig g; g.push_back(canon(s)); g.push_back(canon(t)); report(g); } };
+	struct K1 : LBase { explicit K1(int id) : LBase(id) {} void operator() (std::string s, std::string t) const { Sig g; g.push_back(canon(s)); g.push_back(canon(t)); report(g); } };
+	static std::function<Proto> make(int kind, int cb) { return kind == 1 ? std::function<Proto>(K1(cb)) : std::function<Proto>(K0(cb)); }
+	static void dispatch(D & d, int ki, int v, int form)
+	{
+		const std::string sender = "from-" + strOf(v);
+		const std::string topic = key(ki);
+		if(form == 0) d.dispatch(sender, topic);
+		else d.dispatch("from-" + strOf(v), key(ki));
+	}
+	static Sig expected(int ki, int v, int) { Sig g; g.push_back(H("from-" + strOf(v))); g.push_back(H(key(ki))); return g; }
+	static int forms() { return 2; }
+};
+
 // ---------------------------------------------------------------- interpreter
 struct MItem { int cb; };
 
@@ -648,6 +672,8 @@ void runVariant8(const Plan & p, RunOut & o) { runCfg<Cfg8>(p, o); }
 void runVariant9(const Plan & p, RunOut & o) { runCfg<Cfg9>(p, o); }
 #elif SEQ_VARIANT == 10
 void runVariant10(const Plan & p, RunOut & o) { runCfg<Cfg10>(p, o); }
+#elif SEQ_VARIANT == 11
+void runVariant11(const Plan & p, RunOut & o) { runCfg<Cfg11>(p, o); }
 #endif
 
 } // namespace sd
@@ -659,7 +685,7 @@ Sink * g_sink = nullptr;
 Counters counters;
 void runVariant0(const Plan &, RunOut &); void runVariant1(const Plan &, RunOut &); void runVariant2(const Plan &, RunOut &);
 void runVariant3(const Plan &, RunOut &); void runVariant4(const Plan &, RunOut &); void runVariant5(const Plan &, RunOut &);
-void runVariant6(const Plan &, RunOut &); void runVariant7(const Plan &, RunOut &); void runVariant8(const Plan &, RunOut &); void runVariant9(const Plan &, RunOut &); void runVariant10(const Plan &, RunOut &);
+void runVariant6(const Plan &, RunOut &); void runVariant7(const Plan &, RunOut &); void runVariant8(const Plan &, RunOut &); void runVariant9(const Plan &, RunOut &); void runVariant10(const Plan &, RunOut &); void runVariant11(const Plan &, RunOut &);
 }
 
 namespace engine {
@@ -706,7 +732,7 @@ void execute(const Plan & plan, RunOut & out)
 	switch(v) {
 	case 0: sd::runVariant0(plan, out); break; case 1: sd::runVariant1(plan, out); break; case 2: sd::runVariant2(plan, out); break;
 	case 3: sd::runVariant3(plan, out); break; case 4: sd::runVariant4(plan, out); break; case 5: sd::runVariant5(plan, out); break;
-	case 7: sd::runVariant7(plan, out); break; case 8: sd::runVariant8(plan, out); break; case 9: sd::runVariant9(plan, out); break; case 10: sd::runVariant10(plan, out); break;
+	case 7: sd::runVariant7(plan, out); break; case 8: sd::runVariant8(plan, out); break; case 9: sd::runVariant9(plan, out); break; case 10: sd::runVariant10(plan, out); break; case 11: sd::runVariant11(plan, out); break;
 	default: sd::runVariant6(plan, out); break;
 	}
 	++sd::counters.plans;
@@ -722,7 +748,8 @@ std::string describe(const Plan & plan)
 		"user key with < (std::map)/void(const Key&,int)/AutoDetect", "user key with hash+== (unordered_map, colliding)/void(int,Payload)/ExcludeEvent", "getEvent policy on void(const Ev&)", "int key/explicit std::map/SingleThreading/void(int,Payload)",
 		"int key/ExcludeEvent/non-identity getEvent policy (masks bits)", "string key/ExcludeEvent/non-identity getEvent policy (strips suffix)",
 		"int key/ExcludeEvent/getEvent policy reading a trailing by-value std::string argument",
-		"EventQueue, string key BY VALUE/void(string,Payload)/IncludeEvent: enqueue + process" };
+		"EventQueue, string key BY VALUE/void(string,Payload)/IncludeEvent: enqueue + process",
+		"string key/getEvent policy returning a reference to its second argument" };
 	static const char * names[] = { "?", "append", "prepend", "insert", "remove", "ownsHandle", "hasAny", "forEach", "dispatch" };
 	std::ostringstream o;
 	const int v = plan.user(sd::U_VARIANT);
